@@ -37,6 +37,8 @@ enum EditOp {
     UnpermitIp(u8),
     BanNode(u8, bool),
     PermitNode(u8),
+    UnbanIp(u8),
+    UnbanNode(u8),
 }
 
 #[derive(Clone, Debug, PartialEq)]
@@ -72,6 +74,8 @@ struct Cfg {
     max_nodes_per_ip: Option<usize>,
     max_bans_per_ip: Option<usize>,
     ban_duration_ms: Option<u64>,
+    /// kinds of the arriving datagrams: 0 ordinary messages, 1 handshakes, 2 both (by position in the schedule)
+    kinds: u8,
 }
 
 fn quota(ctx: &mut Ctx) -> Quota {
@@ -113,7 +117,8 @@ fn execute(ctx: &mut Ctx, cfg: &Cfg, steps: &[Step], with_prune: bool, check: bo
         }
         false
     };
-    for st in steps {
+    let mut passes_expired = false;
+    for (step_idx, st) in steps.iter().enumerate() {
         if ctx.failed() {
             break;
         }
@@ -153,6 +158,12 @@ fn execute(ctx: &mut Ctx, cfg: &Cfg, steps: &[Step], with_prune: bool, check: bo
                     EditOp::PermitNode(i) => {
                         l.permit_nodes.insert(node_of(i));
                     }
+                    EditOp::UnbanIp(i) => {
+                        l.ban_ips.remove(&ip_of(i));
+                    }
+                    EditOp::UnbanNode(i) => {
+                        l.ban_nodes.remove(&node_of(i));
+                    }
                 }
                 verif::permit_ban_set(l);
                 if check {
@@ -171,12 +182,36 @@ fn execute(ctx: &mut Ctx, cfg: &Cfg, steps: &[Step], with_prune: bool, check: bo
                 let ip_banned = before.ban_ips.get(&addr.ip()).map(live).unwrap_or(false);
                 let node_permitted = before.permit_nodes.contains(&nid);
                 let node_banned = before.ban_nodes.get(&nid).map(live).unwrap_or(false);
+                // an expired ban stays on the list until the periodic sweep (not part of the filter) removes it; the
+                // filter may still honour such an entry ("at least the configured duration"): a refusal of a listed
+                // sender is attributed to the entry, not to the quotas
+                let ip_listed = before.ban_ips.contains_key(&addr.ip());
+                let node_listed = before.ban_nodes.contains_key(&nid);
                 let ip_stage = f.initial_pass(&addr);
-                let node_stage = if ip_stage { Some(f.final_pass(nid, addr)) } else { None };
+                // message and handshake datagrams both carry a node id and take the same node stage
+                let handshake = match cfg.kinds {
+                    0 => false,
+                    1 => true,
+                    _ => (step_idx as u64).wrapping_mul(0x9E37_79B9_7F4A_7C15) >> 63 == 1,
+                };
+                let node_stage = if ip_stage { Some(if handshake { f.final_pass_handshake(nid, addr) } else { f.final_pass(nid, addr) }) } else { None };
+                if check && handshake {
+                    ctx.count("handshake_kind_arrivals");
+                }
                 let after = verif::permit_ban_snapshot();
+                // (an implementation that lets a listed sender pass once its ban has expired does not honour expired
+                // entries: from then on its refusals are quota decisions and owe a fresh ban)
+                let ip_stale_refusal = !passes_expired && !ip_permitted && !ip_banned && ip_listed && !ip_stage;
+                let node_stale_refusal = !passes_expired && !node_permitted && !node_banned && node_listed && node_stage == Some(false);
+                if (ip_listed && !ip_banned && !ip_permitted && ip_stage) || (node_listed && !node_banned && !node_permitted && node_stage == Some(true)) {
+                    passes_expired = true;
+                }
+                if check && (ip_stale_refusal || node_stale_refusal) {
+                    ctx.count("refusals_on_expired_unswept_ban");
+                }
                 let d = Decision { t_ns: now, ip: *ip, node: *node, ip_stage, node_stage };
                 if check {
-                    ctx.ev(format!("t={}ms arrive ip{} node{} -> ip_stage={} node_stage={:?}", now / 1_000_000, ip, node, ip_stage, node_stage));
+                    ctx.ev(format!("t={}ms arrive {} ip{} node{} -> ip_stage={} node_stage={:?}", now / 1_000_000, if handshake { "handshake" } else { "message" }, ip, node, ip_stage, node_stage));
                     // (d) ban / permit precedence
                     if ip_permitted && !ip_stage {
                         ctx.fail("c18.permitted-ip-dropped", format!("datagram from permitted ip{ip} dropped at the IP stage"), &[]);
@@ -213,7 +248,7 @@ fn execute(ctx: &mut Ctx, cfg: &Cfg, steps: &[Step], with_prune: bool, check: bo
                         ctx.fail("c18.ban-vanished", "a ban entry disappeared while processing a datagram", &[]);
                     }
                     // (a) window bound per stage/key + (e) exceeding a per-IP / per-node quota bans
-                    if cfg.enabled && !ip_permitted && !ip_banned {
+                    if cfg.enabled && !ip_permitted && !ip_banned && !ip_stale_refusal {
                         if let Some(q) = cfg.ipq {
                             let times = ip_pass.entry(*ip).or_default();
                             let exceed = would_exceed(times, now, &q);
@@ -237,7 +272,7 @@ fn execute(ctx: &mut Ctx, cfg: &Cfg, steps: &[Step], with_prune: bool, check: bo
                             total_pass.push(now);
                         }
                     }
-                    if cfg.enabled && ip_stage && !node_permitted && !node_banned {
+                    if cfg.enabled && ip_stage && !node_permitted && !node_banned && !node_stale_refusal {
                         if let Some(q) = cfg.nodeq {
                             let times = node_pass.entry(*node).or_default();
                             if would_exceed(times, now, &q) {
@@ -256,7 +291,7 @@ fn execute(ctx: &mut Ctx, cfg: &Cfg, steps: &[Step], with_prune: bool, check: bo
                             node_pass.entry(*node).or_default().push(now);
                         }
                     }
-                    if !cfg.enabled && !ip_banned && !node_banned && node_stage != Some(true) {
+                    if !cfg.enabled && !ip_banned && !node_banned && !ip_stale_refusal && !node_stale_refusal && node_stage != Some(true) {
                         ctx.fail("c18.disabled-filter-dropped", "filter disabled, nobody banned, datagram dropped", &[]);
                     }
                 }
@@ -293,10 +328,11 @@ pub fn run(ctx: &mut Ctx) {
         nodeq: if ctx.tape.choose(5) == 0 { None } else { Some(quota(ctx)) },
         max_nodes_per_ip: if conforming || ctx.tape.choose(2) == 0 { None } else { Some(2 + ctx.tape.choose(8) as usize) },
         max_bans_per_ip: if ctx.tape.choose(2) == 0 { None } else { Some(1 + ctx.tape.choose(4) as usize) },
-        ban_duration_ms: *ctx.tape.pick(&[None, Some(10_000u64), Some(3_600_000)]),
+        ban_duration_ms: *ctx.tape.pick(&[None, Some(10_000u64), Some(3_600_000), Some(100), Some(1_000)]),
+        kinds: ctx.tape.choose(4).min(2) as u8,
     };
     ctx.ev(format!(
-        "cfg {} enabled={} total={}/{}ms ip={:?} node={:?} max_nodes_per_ip={:?} max_bans_per_ip={:?} ban_duration_ms={:?} ips={n_ips} nodes={n_nodes}",
+        "cfg {} enabled={} total={}/{}ms ip={:?} node={:?} max_nodes_per_ip={:?} max_bans_per_ip={:?} ban_duration_ms={:?} kinds={} ips={n_ips} nodes={n_nodes}",
         if conforming { "conforming" } else { "adversarial" },
         cfg.enabled,
         cfg.total.burst,
@@ -305,7 +341,8 @@ pub fn run(ctx: &mut Ctx) {
         cfg.nodeq.map(|q| (q.burst, q.period_ms)),
         cfg.max_nodes_per_ip,
         cfg.max_bans_per_ip,
-        cfg.ban_duration_ms
+        cfg.ban_duration_ms,
+        ["message", "handshake", "mixed"][cfg.kinds as usize]
     ));
     // ---- build the schedule
     let n = 20 + ctx.tape.choose(if ctx.tier == crate::core::Tier::Quick { 150 } else { 400 });
@@ -367,7 +404,9 @@ pub fn run(ctx: &mut Ctx) {
                     let i = ctx.tape.choose(n_ips as u32) as u8;
                     let nd = ctx.tape.choose(n_nodes as u32) as u8;
                     let perm = ctx.tape.choose(2) == 0;
-                    steps.push(Step::Edit(match ctx.tape.choose(5) {
+                    steps.push(Step::Edit(match ctx.tape.choose(8) {
+                        5 | 6 => EditOp::UnbanIp(i),
+                        7 => EditOp::UnbanNode(nd),
                         0 => EditOp::BanIp(i, perm),
                         1 => EditOp::PermitIp(i),
                         2 => EditOp::UnpermitIp(i),
